@@ -12,6 +12,7 @@ func init() {
 	vfRegister("VfC07_getRIB_p", VfC07_getRIB_p)
 	vfRegister("VfC07_getRIB_p2", VfC07_getRIB_p2)
 	vfRegister("VfC07_getHistory", VfC07_getHistory)
+	vfRegister("VfC07_getAfterCascade", VfC07_getAfterCascade)
 	vfRegister("VfC07_getRIB_eh", VfC07_getRIB_eh)
 }
 
@@ -299,4 +300,41 @@ func VfC07_getHistory() {
 // headers in either index order): Get returns every header field for field, matched by index.
 func VfC07_getRIB_eh() {
 	vfGetRunPE(vfPreCfg{nNH: 1, nNHG: 1, members: 1}, false, true, true, true, 0)
+}
+
+// getAfterCascade: entries that were HELD and are installed by a cascade show up in THEIR OWN instance's Get:
+// an IPv4 / IPv6 / label entry in either instance waits for a group of the default instance; the group's ADD (in
+// DEFAULT) installs it; Get(ALL) of both instances and the rebuilt RIB are compared with the reference.
+func VfC07_getAfterCascade() {
+	r, ref := vfNewPair(true)
+	g := &vfGen{}
+	must := func(d *vfOpD, want int) { vfAssume(vfSubmit(r, ref, d) == want) }
+	must(&vfOpD{id: g.id(), typ: vfADD, kind: vfKNH, ni: "DEFAULT", idx: 1, hasBody: true}, vfStAcked)
+	gid := vfU64("g")
+	ent := &vfOpD{id: g.id(), typ: vfADD, kind: vfTopAll[vfInt("kind", 0, 2)], ni: vfKnownNI("ent"), hasBody: true, hasNHG: true, nhg: gid}
+	if ent.ni != "DEFAULT" || vfBool("explicit-instance") {
+		ent.hasNHGNI, ent.nhgNI = true, "DEFAULT"
+	}
+	switch ent.kind {
+	case vfKV4:
+		ent.pfx = vfStrK("pfx", "prefix4")
+	case vfKV6:
+		ent.pfx = vfStrK("pfx6", "prefix6")
+	default:
+		ent.label = vfU64("label")
+	}
+	must(ent, vfStHeld)
+	must(&vfOpD{id: g.id(), typ: vfADD, kind: vfKNHG, ni: "DEFAULT", idx: gid, hasBody: true, members: []vfMember{{idx: 1}}}, vfStAcked)
+	vfReach("pre-built")
+	vfAssert(len(ref.held) == 0, "C07:cascade-installed-the-held-entry")
+	all := append(vfGetCheck(r, ref, "DEFAULT", spb.AFTType_ALL), vfGetCheck(r, ref, "VRF-A", spb.AFTType_ALL)...)
+	rebuilt, err := FromGetResponses("DEFAULT", all)
+	vfAssert(err == nil, "C07:responses-can-be-rebuilt-into-a-rib")
+	if err == nil {
+		if rebuilt.niRIB["VRF-A"] == nil {
+			rebuilt.AddNetworkInstance("VRF-A")
+		}
+		ref.compareP(rebuilt, "C07:rebuilt-", true)
+	}
+	vfReach("end")
 }
